@@ -61,6 +61,10 @@ class InfoCompiler(BaseOutlineCompiler):
         return EMPTY_BOUNDING_BOX
 
     def _set_attrs(self, tag, attrs):
+        if tag not in self.otf or tag not in self.orig_otf:
+            # e.g. vertical metrics given for a font that has no vertical tables
+            # (they cannot be added here: the glyph metrics would be missing)
+            return
         temp = self.otf[tag]
         orig = self.orig_otf[tag]
         for attr in attrs:
